@@ -71,6 +71,17 @@ pub struct DeweyVersion {
     pkgrevision: i64,
 }
 
+/*
+ * pkg_install matches "nb" and the modifiers with strncasecmp(), i.e. ASCII
+ * case-insensitively.  The prefix is always ASCII so on a match it is safe
+ * to advance by its length.
+ */
+fn starts_with_ignore_ascii_case(s: &str, prefix: &str) -> bool {
+    s.as_bytes()
+        .get(..prefix.len())
+        .is_some_and(|p| p.eq_ignore_ascii_case(prefix.as_bytes()))
+}
+
 impl DeweyVersion {
     /**
      * Create a new [`DeweyVersion`] from a string.
@@ -114,7 +125,7 @@ impl DeweyVersion {
             /*
              * PKGREVISION denoted by nb<x>.  If <x> is missing then 0.
              */
-            if slice.starts_with("nb") {
+            if starts_with_ignore_ascii_case(slice, "nb") {
                 idx += 2;
                 let slice = &s[idx..s.len()];
                 let nbstr: String =
@@ -128,23 +139,23 @@ impl DeweyVersion {
              * Supported modifiers and their weightings so that they are ordered
              * correctly.
              */
-            if slice.starts_with("alpha") {
+            if starts_with_ignore_ascii_case(slice, "alpha") {
                 version.push(-3);
                 idx += 5;
                 continue;
-            } else if slice.starts_with("beta") {
+            } else if starts_with_ignore_ascii_case(slice, "beta") {
                 version.push(-2);
                 idx += 4;
                 continue;
-            } else if slice.starts_with("rc") {
+            } else if starts_with_ignore_ascii_case(slice, "rc") {
                 version.push(-1);
                 idx += 2;
                 continue;
-            } else if slice.starts_with("pre") {
+            } else if starts_with_ignore_ascii_case(slice, "pre") {
                 version.push(-1);
                 idx += 3;
                 continue;
-            } else if slice.starts_with("pl") {
+            } else if starts_with_ignore_ascii_case(slice, "pl") {
                 version.push(0);
                 idx += 2;
                 continue;
@@ -159,7 +170,7 @@ impl DeweyVersion {
              */
             if c.is_ascii_alphabetic() {
                 version.push(0);
-                version.push(c as i64);
+                version.push(c.to_ascii_lowercase() as i64);
                 idx += 1;
             } else {
                 idx += c.len_utf8();
